@@ -148,6 +148,11 @@ PROPS = {
         'kani': STREAM_KANI,
         'explanation': 'ID generation (complete Kani proof over full u64 domains), ID packing/order (complete); explicit-ID admission and XREAD range_after (bounded stand-ins, not counted)',
     },
+    'C16': {
+        'level': 'proof',
+        'verus': [{'group': 'c16_pel'}],
+        'explanation': 'the pending-entries list (two indexes + cached id bounds), the group counters and the group cursor: every operation of PendingEntryList and ConsumerGroup preserves the invariant that the four representations of the pending set agree, with the exact effect XREADGROUP / XACK / XCLAIM / XGROUP administration names; StreamData::range_after and the body of Stream::read_group return the next entries after the cursor, in order, skipping none, and move the cursor past them with or without NOACK; exactly-once / no-gap as lemmas over that contract',
+    },
     'C17': {
         'level': 'proof',
         'verus': [{'group': 'srv_frame'}, {'group': 'srv_conn'}, {'group': 'srv_auth'}],
